@@ -588,7 +588,7 @@ def _diff_is(a, b, c):
     return z3.is_int_value(d) and d.as_long() == c
 
 
-def saturate(eng, formulas, rounds=3, unroll_limit=6):
+def saturate(eng, formulas, rounds=3, unroll_limit=6, level=0):
     """definitional unfolding of Sum / cosn / sinn / sqrt at the indices the VC mentions.
     Returns a list of extra hypotheses (all instances of definitions or of the
     assumed axioms of section 3.2)."""
@@ -622,6 +622,8 @@ def saturate(eng, formulas, rounds=3, unroll_limit=6):
                     if tag not in done:
                         done.add(tag)
                         new.extend(_sum_empty(eng, scratch, nm, reg, a))
+                        if level >= 1:
+                            new.extend(_sum_sign(eng, scratch, nm, reg, a))
                         if z3.is_int_value(d) and 0 < d.as_long() <= unroll_limit:
                             new.extend(_sum_unroll(eng, scratch, nm, reg, a, d.as_long()))
                     for b in g:
@@ -784,6 +786,21 @@ def _sum_step(eng, st, nm, reg, a, b):
     body = call_fn(eng, st, fn, [Sym(hb, "int")])
     bt = _val_terms(body, reg["is_cx"])
     return [z3.Implies(hb >= lo, z3.And(*[c == p + t for c, p, t in zip(cur, prev, bt)]))]
+
+
+def _sum_sign(eng, st, nm, reg, a):
+    """a sum of zeros is zero; a sum of non-negative reals is non-negative
+    (instances with fresh witnesses of the two inductive facts L7)"""
+    args, lo, hi, fn = _sum_parts(eng, nm, reg, a)
+    cur = _sum_app(eng, nm, reg, args, lo, hi)
+    n0 = eng.fresh("wz", "int")
+    b0 = _val_terms(call_fn(eng, st, fn, [n0]), reg["is_cx"])
+    out = [z3.Or(z3.And(lo <= n0.t, n0.t < hi, z3.Or(*[x != 0 for x in b0])), z3.And(*[c == 0 for c in cur]))]
+    if not reg["is_cx"]:
+        n1 = eng.fresh("wn", "int")
+        b1 = _val_terms(call_fn(eng, st, fn, [n1]), False)
+        out.append(z3.Or(z3.And(lo <= n1.t, n1.t < hi, b1[0] < 0), cur[0] >= 0))
+    return out
 
 
 def _sum_ext(eng, st, nm1, reg1, a, nm2, reg2, b):
